@@ -21,6 +21,7 @@ from .utils import (
     is_decorator,
 )
 from .command import parse_condition
+from .command.builtin_function.jmc_command import ISOLATED_ENVIRONMENT
 from .lexer_func_content import FuncContent
 
 if TYPE_CHECKING:
@@ -163,6 +164,7 @@ class Lexer:
         self.imports = set()
         self.if_else_box = []
         self.config = config
+        ISOLATED_ENVIRONMENT.reset()
         self.datapack = DataPack(config.namespace, float(config.pack_format), self)
         self.datapack.functions[self.datapack.load_name] = Function()
         self.parse_file(Path(self.config.target), _test_file, is_load=True)
